@@ -128,7 +128,7 @@ def run():
     n = 3000 if quick else 30000
     opts = [["-greedy"], ["-greedy", "-partition"], ["-greedy", "-no-simplification"], ["-greedy", "-size"],
             ["-greedy", "-storage"], ["-greedy", "-no-simplification", "-partition"]]
-    cases = common.gen_cases(n, common.seed(), opts, kinds=["mem", "mem", "mem", "grammar", "split"],
+    cases = common.gen_cases(n, common.seed(), opts, kinds=["mem", "mem", "mem", "overlap", "overlap", "grammar", "split"],
                              k_states=16 if quick else 48)
     col = common.Collector(r)
     st = common.run_pool("monitors.c02:handle", cases, col, cpu_budget=30.0)
